@@ -569,7 +569,11 @@ pub fn gen_tree(rng: &mut Rng, cfg: &GenCfg, ids: &mut Ids, depth: u32, budget: 
         0 => ConcatHow::New,
         1 => ConcatHow::AddLater,
         2 => ConcatHow::AddObserved,
-        _ => ConcatHow::NestedTyped,
+        _ => match rng.below(4) {
+          0 => ConcatHow::AddTyped,
+          1 => ConcatHow::AddHeld,
+          _ => ConcatHow::NestedTyped,
+        },
       };
       TreeSpec::Concat { children, how }
     }
